@@ -69,3 +69,22 @@ def register_classes():
                     out[n] = c
         _cache['regclasses'] = out
     return _cache['regclasses']
+
+
+def l2():
+    if 'l2' not in _cache:
+        from . import l2 as m
+        _cache['l2'] = m.build(mods())
+    return _cache['l2']
+
+
+def l5():
+    if 'l5' not in _cache:
+        from . import l5 as m
+        _cache['l5'] = m.build(mods())
+    return _cache['l5'][0]
+
+
+def l5_raise_abort():
+    l5()
+    return _cache['l5'][1]
